@@ -155,6 +155,7 @@ func run(p *kernel.Plan) (res *kernel.Result) {
 	if ver != 1 || v != hv || a != ha {
 		return res.Fail("C09/header-mismatch", "ReadHeader = (%d,%v,%v), written (1,%v,%v)", ver, v, a, hv, ha)
 	}
+	var kept [][]byte
 	for i, t := range want {
 		tt, sz, ts, err := dm.ReadTagHeader()
 		if err != nil {
@@ -176,6 +177,14 @@ func run(p *kernel.Plan) (res *kernel.Result) {
 		}
 		if !bytes.Equal(body, t.Body) {
 			return res.Fail("C09/tag-body", "tag %d body differs (%d vs %d bytes)", i, len(body), len(t.Body))
+		}
+		kept = append(kept, body)
+	}
+	// the tags returned, looked at once the file has been read (the interface
+	// sets no limit on how long a returned body stays valid)
+	for i, body := range kept {
+		if !bytes.Equal(body, want[i].Body) {
+			return res.Fail("C09/tag-body-changed-after-return", "tag %d body was identical when ReadTag returned it and differs after the later tags were read", i)
 		}
 	}
 	if _, _, _, err := dm.ReadTagHeader(); err == nil {
